@@ -27,6 +27,10 @@ NEGATIVE_CONTROLS = [
     "and services, dependency last); ObjectHandler's zone test in negated form",
     "nc8_plugin_counter_order (round 3): PluginCheckTask takes its unit before bumping CurrentConcurrentChecks and through a named boolean; "
     "ProcessFinishedHandler gives it back after trimming the output (script=plugin stays silent: pi is logged after the real +1, pd before the real -1)",
+    "nc9_rearm_after_guard_both_branches (round 4): ExecuteCheck re-arms (SetLastCheckStarted + UpdateNextCheck) AFTER the single-flight test but in both "
+    "branches (the harmless sibling of seeded C04-10); RescheduleCheck reads its parameters first and sets force_next_check only if it is not set yet; the "
+    "skip path calls UpdateNextCheck through a local.  not_rearmed is evaluated when ExecuteCheck has RETURNED (helper.dec), not at the guard, and the driver "
+    "replays the early re-arm with a synthetic value, so the order inside ExecuteCheck is not compared",
 ]
 # Contract of the H3 points that the trace validation does rely on (a maintainer moving them breaks the tie, not the property): the points
 # sched.pick/sched.skip/helper.finish/object.done/nextcheck.reindex are reached after the section's last change of the two sets and before the
@@ -39,7 +43,8 @@ class C04(Check):
                          "passive_result_pre_fix_breaks_single_flight", "concurrency_bound", "next_check_window",
                          "forced_runs", "skip_iff", "eligible_runs", "progress", "sched_keeps_scheduled", "sched_takes_earliest", "pending_has_helper",
                          "completion_always_possible", "no_slot_leak", "model_trace_meets_spec",
-                         "counter_exceeds_max_with_plugins"]
+                         "counter_exceeds_max_with_plugins", "rearm_after_dispatch", "update_next_check_after_dispatch",
+                         "rearmed_when_attempt_returns"]
     technique = ("Lean 4 proof (invariants by induction over arbitrary interleavings of a transition system whose actions are the "
                  "lock-protected sections of CheckerComponent, the single-flight flag of Checkable::ExecuteCheck and the attribute writes "
                  "that happen outside the checker's mutex; exact rational arithmetic for UpdateNextCheck); correspondence by trace "
@@ -61,7 +66,12 @@ class C04(Check):
                   "again and, if active, back into the idle set (nothing is stranded in pending); completion_always_possible: from every reachable state the completion path of any checkable can be run to its end with that "
                   "checkable's own actions alone (each enabled regardless of all other checkables), after which it is not pending and - if schedulable and its "
                   "handlers have run - idle again; sched_takes_earliest: the scheduler never takes an entry while an idle one has an earlier key; no_slot_leak: whenever nothing is in flight the "
-                  "pending-checks counter is 0, whatever happened to the checkables meanwhile; no stuck state (a due idle checkable and a free slot enable "
+                  "pending-checks counter is 0, whatever happened to the checkables meanwhile; rearmed_when_attempt_returns (round 4): ExecuteCheck's early, unconditional "
+                  "UpdateNextCheck() (before the single-flight guard) and the UpdateNextCheck() of result processing / the skip path are transitions of the model "
+                  "(rearm / ownResched: clock not before the dispatch, value after the clock - the latter is next_check_window); in every reachable state in which an "
+                  "execution attempt past that point is outstanding and no outside party wrote next_check since the earliest outstanding dispatch, next_check lies after "
+                  "that dispatch - also when the attempt found the guard busy - and the model's trace carries this as the `rearmed` observation at every helper's "
+                  "return (clause not_rearmed of model_trace_meets_spec); no stuck state (a due idle checkable and a free slot enable "
                   "the scheduler for the smallest key); UpdateNextCheck yields now < next <= now + interval for all now, offset >= 0, interval > 0. "
                   "The model is tied to the code by validating the real scheduler's section-by-section trace against it (every section enabled, "
                   "same membership, key and counter discipline afterwards), by the harness's own monitor of command start/end per checkable, by "
@@ -72,20 +82,28 @@ class C04(Check):
                   "at every scheduler decision the harness records, from its OWN bookkeeping written under the checker's mutex, the object's flag, both global flags, "
                   "the period and the state of the gate host of its disable_checks dependency, and the specification demands: forced => executed, eligible => "
                   "executed (eligible_skipped), unforced and ineligible => not executed (ran_although_disabled); at quiescence nothing is left in the pending set "
-                  "(quiescent_pending) and the implementation's pending-checks counter is 0 (slot_leaked). PARTIAL: real-time liveness (a due check starts as soon as a slot is free) is only measured (latency "
+                  "(quiescent_pending) and the implementation's pending-checks counter is 0 (slot_leaked); every time ExecuteCheck() has returned inside a helper (result delivered, "
+                  "process spawned, or guard found busy) the implementation's own next_check must lie after the clock of the earliest outstanding dispatch unless a harness "
+                  "operation wrote next_check meanwhile (not_rearmed); forced checks are requested through the PRODUCTION entry points - ApiActions::RescheduleCheck (with and "
+                  "without next_check) and the external commands SCHEDULE_FORCED_HOST_CHECK / SCHEDULE_FORCED_SVC_CHECK - for every skip reason (own flag, period, global flag of "
+                  "the type, failed disable_checks dependency) and must be executed (forced_runs), the same requests without force must be skipped (ran_although_disabled) and, "
+                  "once the reason is gone, executed (eligible_skipped). PARTIAL: real-time liveness (a due check starts as soon as a slot is free) is only measured (latency "
                   "histogram, overdue bound), not proved")
     level_note = ("Trusted: Lean kernel (+ propext, Classical.choice, Quot.sound), sampled trace validation in real time (seeded scenarios; thread "
                   "schedules are not reproducible), harness/driver, std::mutex and the thread pool. Not modelled: interleavings finer than a "
                   "critical section (data races), remote checks "
                   "(command_endpoint), ACTIVE results relayed by the cluster during a local execution (they still reset the single-flight flag), the evaluation of "
                   "dependencies / time periods themselves (C07/C08: the model takes 'no disable_checks dependency failed' and 'period open' as recorded facts; the "
-                  "harness makes them true/false through gate hosts and an always-open / always-closed period), UpdateNextCheck as a transition (the "
-                  "re-arming value is taken from the implementation and checked against next_check_window), Checkable::Start's initial spread, IEEE rounding in UpdateNextCheck (agreement within 1 us is checked), "
+                  "harness makes them true/false through gate hosts and an always-open / always-closed period), the VALUE UpdateNextCheck computes inside the transition system "
+                  "(rearm / ownResched take it as a parameter constrained to lie after the clock; the arithmetic is the separate exact function with theorem next_check_window; the "
+                  "driver replays ExecuteCheck's early re-arm with a synthetic value because the schedule points do not log it), the sequential order of the scheduler thread "
+                  "between a skip and its UpdateNextCheck, the cluster entry point of forced checks (event::SetForceNextCheck), Checkable::Start's initial spread, IEEE rounding in UpdateNextCheck (agreement within 1 us is checked), "
                   "wall-clock liveness (measured only).")
     trusted_base = [
         "modelled, not verified: CheckerComponent::CheckThreadProc/ExecuteCheckHelper/ObjectHandler/NextCheckChangedHandler at the granularity of "
         "their critical sections, the guard set of CheckThreadProc:142-176 as a function of six recorded facts (is-service, dependency ok, own flag, the two "
-        "global flags, period open), the m_CheckRunning test-and-set/reset, PluginCheckTask's +1/-1, Checkable::UpdateNextCheck (pure function); "
+        "global flags, period open), the m_CheckRunning test-and-set/reset, ExecuteCheck's early UpdateNextCheck before the guard, PluginCheckTask's +1/-1, "
+        "Checkable::UpdateNextCheck (pure function); the clock is monotone (a helper reads it no earlier than the scheduler that dispatched it); "
         "everything else of ExecuteCheck / ProcessCheckResult / IsReachable / TimePeriod::IsInside runs for real in the harness but is not in the model",
         "hook H3 (lib/base/verif-hooks.hpp, add-only under #ifdef ICINGA2_VERIF): VERIF_POINT calls inside the critical sections; the harness "
         "reads m_IdleCheckables/m_PendingCheckables (private, via explicit template instantiation) while the section's lock is still held",
@@ -122,6 +140,12 @@ class C04(Check):
         "wall-clock verdicts: liveness_overdue and the two 0.5 s-poll probes (wakeup, wakeup_async: median >= 0.15 s) are evaluated only when the canary threads saw no "
         "stall (else counted as inconclusive); wakeup_resched is order-based (the harness waits 8 s for the rescheduled entry before any other event; two "
         "unanswered reschedules fail, inconclusive if a canary overslept >= 4 s); every other clause is about order and state, not time",
+        "not_rearmed: a harness SetNextCheck-like operation (OpSetNext, the API action, the external commands; logged `ob setnext` .. `oe setnext`) between the earliest "
+        "outstanding dispatch and the helper's return suspends the claim for that attempt (its write may be the last one); all other writers of next_check that run in "
+        "the scenarios (ExecuteCheck, ProcessCheckResult for active and passive results, the scheduler's skip path, Checkable::Start) write values after their own clock; "
+        "the parent/child reschedules of ProcessCheckResult (:411-438) are not reachable (the only dependency parents are gate hosts that are never checked)",
+        "script=api_force: `E force` is logged when the request is made, before the entry point's SetForceNextCheck; the checkable is idle and due in 600 s, so the "
+        "scheduler cannot take it before the entry point's own SetNextCheck, which follows the flag write in all three entry points",
         "thread schedules are not reproducible: --replay re-runs the scenario with the same seed and parameters several times",
     ]
     use_leanchecker = True
@@ -258,7 +282,7 @@ class C04(Check):
         res.exhaustive = False
         res.rule = ("corpus/C04/*.ops, then from one PRNG seeded by VERIF_SEED: 40 000 (300 000 thorough) UpdateNextCheck comparisons under the "
                     "virtual clock (now small / medium / around 1.7e9 s, intervals <= 1 s, = 1 s, just above, whole seconds, minutes, arbitrary; "
-                    "offsets 0 .. 2^31; hard and soft-with-result state) and 15 (24) real-time scenarios of 5 s (75 s) plus 2 (6) scripted wake-up probes (helper / plugin-process variant), 1 (2) wakeup_resched probes (a non-front idle entry is rescheduled to now), 1 (2) eligibility probes (host hard DOWN with a service, a host behind a disable_checks dependency; global flags, own flag, period and gate switched off and on with forced checks in between), 1 (2) plugin probes (8+2 checkables whose command is the real PluginCheckTask running /bin/sh processes, max_concurrent_checks=2, 2 mutator threads) 1 passive_during_check probe (regression of F-C04c) and 1 (2) skip_pause probes (an OnNextCheckChanged slot pauses a checkable from inside the window in which the scheduler's skip path has released its mutex; it must stay out of both sets), 5 (6) at a time, one process "
+                    "offsets 0 .. 2^31; hard and soft-with-result state) and 15 (24) real-time scenarios of 5 s (75 s) plus 2 (6) scripted wake-up probes (helper / plugin-process variant), 1 (2) wakeup_resched probes (a non-front idle entry is rescheduled to now), 1 (2) eligibility probes (host hard DOWN with a service, a host behind a disable_checks dependency; global flags, own flag, period and gate switched off and on with forced checks in between), 1 (2) plugin probes (8+2 checkables whose command is the real PluginCheckTask running /bin/sh processes, max_concurrent_checks=2, 2 mutator threads) 1 (2) api_force probes (forced / unforced requests through the reschedule-check API action and the SCHEDULE_FORCED_* external commands for every skip reason; also corpus/C04/forced_entry_points.ops), 1 passive_during_check probe (regression of F-C04c; its forced second dispatch finds the guard busy - not_rearmed is evaluated on it) and 1 (2) skip_pause probes (an OnNextCheckChanged slot pauses a checkable from inside the window in which the scheduler's skip path has released its mutex; it must stay out of both sets), 5 (6) at a time, one process "
                     "each: 5-300 hosts plus up to n/4 created at run time, max_concurrent_checks in {1, 2, 4, 16}, check intervals 30 ms - 3 s "
                     "(some above 1 s so that the offset adjustment is live), retry intervals, max_check_attempts 1-3, one third Services of an earlier host of the scenario (hosts that are always / alternately DOWN included), 1 in 12 in a foreign zone, 1 in 6 behind a disable_checks dependency on one of two gate hosts, 10 % with active checks "
                     "disabled, 10 % with a closed check period (one mutator operation in ten toggles the object's flag, its period, a global flag or a gate at run time), commands that sleep (mean chosen for ~40 % load), return OK / alternate / fail / "
